@@ -738,10 +738,12 @@ static void c14_build(Rng &rng, Bytes &content_type, Bytes &body, std::vector<Pa
                 default: ps.content += "value" + strfmt("%d", (int) rng.below(100));
             }
         }
+        // with LF-only line ends a CR before LF would be ambiguous; the substitute is outside the boundary alphabet and is made
+        // before the delimiter check below (substituting afterwards once completed a boundary: "--" + boundary-minus-'r' + CR)
+        if (lf_only) { for (auto &ch : ps.content) if (ch == '\r') ch = '_'; }
         // the content must not contain a real delimiter: line end + "--" + boundary
         for (;;) { size_t at = ps.content.find("\n--" + boundary); if (at == std::string::npos) break; ps.content[at + 1] = '+'; }
         if (ps.content.compare(0, 2 + boundary.size(), "--" + boundary) == 0) ps.content[0] = '+';
-        if (lf_only) { for (auto &ch : ps.content) if (ch == '\r') ch = 'r'; }   // with LF-only line ends a CR before LF would be ambiguous
         parts.push_back(ps);
     }
     body.clear();
